@@ -812,10 +812,15 @@ func (e *Enc) obligeClause(env *SpecEnv, st *State, kind string, c *Clause, pos 
 
 func (e *Enc) obligeClauseNamed(env *SpecEnv, st *State, kind, label string, c *Clause, pos token.Pos) {
 	n := len(e.v.specErrors)
-	t := e.evalClause(env, c)
+	t, sides := e.evalClauseSides(env, c)
 	if len(e.v.specErrors) > n {
 		e.oblige(st, "contract-binding", label, "false", pos)
 		return
+	}
+	// field-invariant instances for the fields the clause reads are
+	// assumptions of the state (as at loads in the code), not part of the goal
+	if len(sides) > 0 {
+		st.assume(and(sides...))
 	}
 	e.oblige(st, kind, label, t, pos)
 }
@@ -1087,6 +1092,10 @@ func (e *Enc) loopEnv(fr *frame, head *ssa.BasicBlock, st *State, spec *LoopSpec
 			// note: the hidden index of "for i := range slice" is exposed as
 			// rangeindex (it is i-1 at the loop header, -1 before the first iteration)
 			env.vars[phi.Comment] = fr.vals[phi]
+			if phi.Comment == "rangeint.iter" {
+				// "for b := range n": the loop variable at the loop header
+				env.vars["rangeiter"] = fr.vals[phi]
+			}
 		}
 	}
 	// the iterator of a range-over-map loop
